@@ -24,7 +24,11 @@ LRU_CONFIGS = {
     "shadow": "shadow",
 }
 
-_STATE = {"src": None, "lru": None, "out": None, "machines": {}}
+_STATE = {"src": None, "lru": None, "out": None, "machines": {},
+          # run indices this process has executed so far (generated runs
+          # only): the part of a run's outcome that is not in its dictionary
+          # is what the process did before
+          "history": []}
 
 
 def setup(src, lru, silence=True):
@@ -176,6 +180,9 @@ def run_chunk(pid, seed, tier, lru, indices, keep_runs=False):
         res = execute(pid, run)
         res["idx"] = idx
         res.pop("trace", None)
+        if res["violations"]:
+            res["history"] = list(_STATE["history"])
+        _STATE["history"].append(idx)
         if res["violations"] or res["status"] == "harness" or keep_runs:
             res["run"] = run
         elif idx < 3 * len(m.lru_configs(tier)):
